@@ -54,9 +54,21 @@ def suiteMerge (kvs : List (String × String)) (lines : List (String × String))
   | none => lines.map fun _ => "no-such-type\t-"
   | some td =>
     lines.map fun (line, _) =>
+      let toKVs (s : String) := (s.splitOn ";").filterMap fun kv => match kv.splitOn "=" with | [k, v] => some (k, v) | _ => none
+      if line.startsWith "f " then
+        -- factory layering: constructors c0 … c(k-1), the factory's own config, the library defaults; the LAST
+        -- constructor has the highest precedence: fold Merge over [c(k-1), …, c0, base, defaults]
+        let segs := ((line.drop 2).toString).splitOn " | "
+        let vals := segs.map fun sg => buildVal types 8 td.fields "" (toKVs sg)
+        let nC := vals.length - 2
+        let order := (vals.take nC).reverse ++ vals.drop nC
+        let empty := buildVal types 8 td.fields "" []
+        let m := order.foldl (fun acc l => evalStmts types 8 td.fields td.prog acc l) empty
+        let sp := order.foldl (fun acc l => specStruct types 8 td.fields acc l) empty
+        ";".intercalate (encodeVal "" m) ++ "\t" ++ ";".intercalate (encodeVal "" sp)
+      else
       match ((line.drop 2).toString).splitOn " | " with
       | [rs, os] =>
-        let toKVs (s : String) := (s.splitOn ";").filterMap fun kv => match kv.splitOn "=" with | [k, v] => some (k, v) | _ => none
         let r := buildVal types 8 td.fields "" (toKVs rs)
         let o := buildVal types 8 td.fields "" (toKVs os)
         let m := evalStmts types 8 td.fields td.prog r o
